@@ -299,6 +299,98 @@ func runC01(r *vk.Run) {
 	})
 	r.Require("daemon_cases_with_unterminated_lines", 200)
 
+	// a container may write the same line twice within one clock reading: two records. Every record of the
+	// dataset is given k identical copies (same timestamp, line, labels); a stateless pipeline must return
+	// k copies of whatever it returns for one (model-free: compared with the evaluation over single copies)
+	r.Phase("twins", r.N(300, 30000), func(c *vk.Case) {
+		rng := c.Rng
+		n := rng.Range(3, 12)
+		ds := genDataset(rng, formats[c.Idx%len(formats)], n, logT0)
+		unknown, undecided := 0, 0
+		q := genLogQuery(rng, ds, genOpts{MaxStages: 3}, &unknown, &undecided)
+		if rng.Chance(1, 3) {
+			pushStage(&q, stDrop([]nameOrMatcher{{Name: "msg"}}))
+		}
+		text := q.Text()
+		k := rng.Range(2, 3)
+		var many []Rec
+		for _, rec := range ds.Recs {
+			for j := 0; j < k; j++ {
+				many = append(many, rec)
+			}
+		}
+		one, err1 := evalQuery(&MemQuerier{Recs: ds.Recs, ErrAfter: -1}, text, logRangeParams(n))
+		all, err2 := evalQuery(&MemQuerier{Recs: many, ErrAfter: -1}, text, logRangeParams(n))
+		c.Eval(2)
+		det := map[string]any{"query": text, "records": ds.Recs, "copies": k, "single": one, "copied": all}
+		if err1 != nil || err2 != nil {
+			if (err1 == nil) != (err2 == nil) {
+				c.Fail("", fmt.Sprintf("%s: err over single records %v, over %d copies %v", text, err1, k, err2), det)
+			}
+			return
+		}
+		bag := func(r Result) map[string]int {
+			m := map[string]int{}
+			for _, s := range r.Streams {
+				for _, e := range s.Entries {
+					m[fmt.Sprintf("%d %q %s", e.TS, e.Line, labelKey(s.Labels))]++
+				}
+			}
+			return m
+		}
+		b1, bk := bag(one), bag(all)
+		for key, cnt := range b1 {
+			if bk[key] != cnt*k {
+				c.Fail("", fmt.Sprintf("%s: entry %s is returned %d time(s) for one record and %d time(s) for %d identical records", text, key, cnt, bk[key], k), det)
+				return
+			}
+		}
+		if len(bk) != len(b1) {
+			c.Fail("", fmt.Sprintf("%s: %d distinct entries over the copies, %d over single records", text, len(bk), len(b1)), det)
+			return
+		}
+		c.Count("twin_record_evaluations", 1)
+		if len(b1) > 0 {
+			c.Nontrivial(fmt.Sprintf("twins|%d", c.Idx))
+		}
+	})
+	r.Require("twin_record_evaluations", 200)
+
+	// more records than any "sane" cap: 11000..15000 records, half of them matching, no limit -- every
+	// matching record once
+	r.Phase("bulk", r.N(2, 20), func(c *vk.Case) {
+		rng := c.Rng
+		n := rng.Range(11000, 15000) // more than 5000 of them match
+		recs := make([]Rec, 0, n)
+		want := 0
+		for i := 0; i < n; i++ {
+			line := fmt.Sprintf("kind=%s n=%d", vk.Pick(rng, []string{"keep", "drop"}), i)
+			if strings.HasPrefix(line, "kind=keep") {
+				want++
+			}
+			recs = append(recs, Rec{TS: logT0 + int64(i+1)*1e6, Line: line, Labels: map[string]string{"app": "x"}})
+		}
+		for _, limit := range []int{-1, 0, n + 1} {
+			res, err := evalQuery(&MemQuerier{Recs: recs, ErrAfter: -1}, `{app="x"} |= "kind=keep" | drop msg`, EvalP{Start: logT0, End: logT0 + int64(n+5)*1e6, Step: time.Second, Limit: limit})
+			c.Eval(1)
+			got := 0
+			seen := map[int64]bool{}
+			for _, s := range res.Streams {
+				for _, e := range s.Entries {
+					got++
+					seen[e.TS] = true
+				}
+			}
+			if err != nil || got != want || len(seen) != want {
+				c.Fail("", fmt.Sprintf("%d records, %d matching, limit %d: %d entries (%d distinct) returned, err=%v", n, want, limit, got, len(seen), err), map[string]any{"records": n, "matching": want, "limit": limit})
+				return
+			}
+			c.Count("bulk_evaluations", 1)
+		}
+		c.Nontrivial(fmt.Sprintf("bulk|%d", c.Idx))
+	})
+	r.Require("bulk_evaluations", 6)
+
 	// a line is malformed as a whole, however late it breaks: JSON lines that are well-formed up to and
 	// including every field a stage asks for and broken after that are flagged like any other malformed
 	// line, so `__error__=""` excludes them and `__error__!=""` returns them (model-free: the expectation
